@@ -208,6 +208,13 @@ func (a *alphabetCtx) dkgAlphabet(keyGood, keyBad, poly []byte) []*exEvent {
 				a.ev("response", p, "emptyfield", 3, EvResponse, mkReq(map[string]interface{}{"ParticipantId": p, "Response": "", "CreatedAt": t}), ""),
 				a.ev("masterkey", p, "emptyfield", 4, EvMasterKey, mkReq(map[string]interface{}{"ParticipantId": p, "MasterKey": "", "PubPolyBz": "", "CreatedAt": t}), ""),
 			)
+			// the same participant, the same instant, another content (a second, different contribution that
+			// looks like a re-read of the first one to anything that compares time stamps)
+			out = append(out,
+				a.ev("commit", p, "othercontent", 1, EvCommit, mkReq(requests.DKGProposalCommitConfirmationRequest{ParticipantId: p, Commit: []byte(fmt.Sprintf("commit-%d-other", p)), CreatedAt: t}), ""),
+				a.ev("deal", p, "othercontent", 2, EvDeal, mkReq(requests.DKGProposalDealConfirmationRequest{ParticipantId: p, Deal: []byte(fmt.Sprintf("deal-%d-other", p)), CreatedAt: t}), a.W.Nodes[0].Name),
+				a.ev("response", p, "othercontent", 3, EvResponse, mkReq(requests.DKGProposalResponseConfirmationRequest{ParticipantId: p, Response: []byte(fmt.Sprintf("resp-%d-other", p)), CreatedAt: t}), ""),
+			)
 		}
 		t := a.ts("valid")
 		out = append(out,
